@@ -36,6 +36,11 @@ func (e *SingleNestExpr) Eval(ctx context.Context, local Scope) (Value, error) {
 		if err != nil {
 			return nil, err
 		}
+		if set.IsTrue() {
+			if err := validNestOp(relAttrs, NewNames(e.attr)); err != nil {
+				return nil, WrapContextErr(err, e, local)
+			}
+		}
 		return SingleAttrNest(set, relAttrs, e.attr), nil
 	}
 	return nil, WrapContextErr(errors.Errorf("nest lhs must be relation, not %s", ValueTypeAsString(value)), e, local)
